@@ -120,6 +120,10 @@ class Module:
         self.source = source
         self.digest = hashlib.sha256(source.encode()).hexdigest()
         self.tree = ast.parse(source, filename=str(path))
+        from . import alpha
+
+        # locals renamed in the in-memory tree back to the names the rules know (alpha-equivalent program; see core/alpha.py)
+        self.renamings = alpha.canonicalise(self.tree, alpha.load_table().get(name)) if os.environ.get("VERIF_NO_ALPHA") != "1" else []
         self.classes = {}
         self.functions = {}
         self.imports = {}  # alias -> ('module', dotted) or ('from', module, name)
